@@ -457,6 +457,95 @@ ben('b-tree-child-match-order', ['C02', 'C10', 'C13'], (tn,
                 Ok(node) => Ok(Some(node)),
             }'''), 'match arms reordered, catch-all spelled Err(_)')
 
+# ---------------------------------------------------------------- helper extraction (depth-1 inlining of guards / checked calls)
+ben('b-c06-helper-guard', VERIFIERS, [(look,
+    '''    if proof.version > current_epoch {
+        return Err(VerificationError::LookupProof(alloc::format!(
+            "Proof version {} is greater than current epoch {}",
+            proof.version,
+            current_epoch
+        )));
+    }
+''',
+    '''    check_version_not_in_future(proof.version, current_epoch)?;
+'''), (look,
+    '''/// Verifies a lookup with respect to the root_hash
+pub fn lookup_verify''',
+    '''fn check_version_not_in_future(version: u64, current_epoch: u64) -> Result<(), VerificationError> {
+    if version > current_epoch {
+        return Err(VerificationError::LookupProof(alloc::format!(
+            "Proof version {} is greater than current epoch {}",
+            version,
+            current_epoch
+        )));
+    }
+    Ok(())
+}
+
+/// Verifies a lookup with respect to the root_hash
+pub fn lookup_verify''')], 'version guard moved into a helper called with `?`')
+ben('b-c06-helper-call', VERIFIERS, [(look,
+    '''    let marker_version = 1 << crate::utils::get_marker_version_log2(proof.version);
+    verify_existence::<TC>(
+        vrf_public_key,
+        root_hash,
+        &akd_label,
+        VersionFreshness::Fresh,
+        marker_version,
+        &proof.marker_vrf_proof,
+        &proof.marker_proof,
+    )?;
+''',
+    '''    verify_marker::<TC>(vrf_public_key, root_hash, &akd_label, &proof)?;
+'''), (look,
+    '''/// Verifies a lookup with respect to the root_hash
+pub fn lookup_verify''',
+    '''fn verify_marker<TC: Configuration>(
+    vrf_public_key: &[u8],
+    root_hash: Digest,
+    akd_label: &AkdLabel,
+    proof: &LookupProof,
+) -> Result<(), VerificationError> {
+    let marker_version = 1 << crate::utils::get_marker_version_log2(proof.version);
+    verify_existence::<TC>(
+        vrf_public_key,
+        root_hash,
+        akd_label,
+        VersionFreshness::Fresh,
+        marker_version,
+        &proof.marker_vrf_proof,
+        &proof.marker_proof,
+    )?;
+    Ok(())
+}
+
+/// Verifies a lookup with respect to the root_hash
+pub fn lookup_verify''')], 'marker check moved into a helper called with `?`')
+ben('b-c09-helper-guard', TREE, [(aud,
+    '''    if proof.epochs.len() != proof.proofs.len() {
+        return Err(AkdError::AuditErr(AuditorError::VerifyAuditProof(format!(
+            "The proof has {} epochs and {} proofs. These should be equal!",
+            proof.epochs.len(),
+            proof.proofs.len()
+        ))));
+    }
+''',
+    '''    check_proof_shape(&proof)?;
+'''), (aud,
+    '''/// Verifies an audit proof, given start and end hashes for a merkle patricia tree.''',
+    '''fn check_proof_shape(proof: &AppendOnlyProof) -> Result<(), AkdError> {
+    if proof.epochs.len() != proof.proofs.len() {
+        return Err(AkdError::AuditErr(AuditorError::VerifyAuditProof(format!(
+            "The proof has {} epochs and {} proofs. These should be equal!",
+            proof.epochs.len(),
+            proof.proofs.len()
+        ))));
+    }
+    Ok(())
+}
+
+/// Verifies an audit proof, given start and end hashes for a merkle patricia tree.''')], 'length guard moved into a helper')
+
 out = os.path.join(os.path.dirname(os.path.abspath(__file__)), 'benign.json')
 json.dump({'benign': B}, open(out, 'w'), indent=1)
 print('%d benign variants -> %s' % (len(B), out))
